@@ -134,9 +134,9 @@ PROPS['C18'] = P(
              'panics inside code the model does not cover (Bevy internals) can only be exhibited by the harness (catch_unwind)',
              'payload release for stale targets is C05 (correspondence + m_payloads monitor)'])
 PROPS['C02'] = P(
-    ['runner_invariant', 'root_frame_leaves_nothing', 'trees_run_to_completion', 'postponed_only_for_active'],
+    ['runner_invariant', 'root_frame_leaves_nothing', 'trees_run_to_completion', 'postponed_only_for_active', 'every_event_carrying_command_is_resolved_exactly_once'],
     ['recursion', 'mixed', 'stale'], 'runs', determined=True,
-    assumes=['the counting form "exactly one start or abort per command" over the event log and termination are not yet theorems: they rest on the correspondence (runner event sink) and the m_runs monitor'])
+    assumes=['exactly-once is a theorem for every command that parks event data (unique ticket: set up exactly once, by its run or by the abort path); for plain system commands (no ticket) and for termination it rests on the correspondence (runner event sink) and the m_runs monitor'])
 MANIFEST_TEXT['C11'] = (
  "Machine-checked: for every program and every sequence of trees, when a top-level operation returns the tree counter is 0, the postponed-command buffer is empty, every system command has its callback back, all four trackers have no pending metadata and no reacting flag, and the despawn tracker holds no handle (run_quiescent_full), from two invariants proved for every interpreter instruction with a ghost calling context (exec_runner, exec_ticket). Tied to /repo by differential runs comparing the bookkeeping snapshot (hook) after every top-level op, plus the m_quiescent monitor on implementation logs.",
  "Trusted: Coq kernel; model faithfulness (differential); Bevy semantics as modelled. Absence of leftover data entities and history-independence are not theorems yet (snapshot data=0 compared on every run).",
@@ -146,8 +146,8 @@ MANIFEST_TEXT['C18'] = (
  "Trusted: as C11. Stuck 4 (B0003) is excluded by the generator's spawn_first rule; panics in unmodelled Bevy code can only be seen by the harness.",
  "Coq proof (never-Stuck corollary of the tracker invariant) + fault-style differential runs + monitors", "DESIGN.md §5 C18")
 MANIFEST_TEXT['C02'] = (
- "Machine-checked for every program: the runner's stack/buffer/counter invariant (exec_runner) — commands are postponed only for targets whose frame is active, every buffer entry targets an active frame, at a root frame the buffer is already empty before the discard loop, and when the outermost flush returns nothing is unresolved (trees_run_to_completion). The exactly-once count per command and termination are partial: checked by the correspondence on the runner event stream (hook 2) and by the m_runs monitor.",
- "Trusted: as C11. Partial: the per-command exactly-once count over the log and termination are not theorems.",
+ "Machine-checked for every program: the runner's stack/buffer/counter invariant (exec_runner) — commands are postponed only for targets whose frame is active, every buffer entry targets an active frame, at a root frame the buffer is already empty before the discard loop, and when the outermost flush returns nothing is unresolved (trees_run_to_completion); over a whole run every command that parked event data was set up exactly once, by its run or by the abort path (tickets of claims = tickets of parked commands, pairwise distinct). Exactly-once for plain system commands (which carry no ticket) and termination are partial: checked by the correspondence on the runner event stream (hook 2) and by the m_runs monitor.",
+ "Trusted: as C11. Partial: exactly-once for ticket-less system commands and termination are not theorems.",
  "Coq proof (runner invariant with ghost context) + model/implementation correspondence on runner events + monitor", "DESIGN.md §5 C02")
 
 PROPS['C10'] = P(
@@ -215,12 +215,12 @@ PROPS['C05'] = P(
     ['unheard_broadcast_dropped_at_once_partial', 'unheard_entity_event_dropped_at_once_partial', 'counter_starts_at_number_of_readers_partial',
      'entity_event_counter_starts_at_number_of_readers_partial', 'payload_kept_while_readers_remain_partial',
      'entity_event_payload_kept_while_readers_remain_partial', 'last_reader_releases_partial', 'system_event_data_released_by_cleanup_partial',
-     'one_decrement_per_cleanup_partial', 'skipped_reader_still_cleans_up_partial', 'no_reader_is_lost_partial'],
+     'one_decrement_per_cleanup_partial', 'skipped_reader_still_cleans_up_partial', 'no_reader_is_lost_partial', 'every_scheduled_reader_is_set_up_exactly_once'],
     ['stale', 'recursion', 'lifetime', 'mixed'], 'payloads', determined=False,
     assumes=['PARTIAL: the theorems cover every step of the release protocol for all states (initial count, one decrement per cleanup, release at zero, abort path, setup never fails) but not the global count over a whole tree — that every queued reaction command reaches its cleanup exactly once, so the payload is dropped exactly once, after the last scheduled reader and not before. The global claim rests on the correspondence (every payload drop is a compared log line; the number of live data entities is compared after every top-level op) and on the m_payloads monitor',
              'the data-entity spawn (CSpawnData) is a separate deferred command, as in the crate'])
 MANIFEST_TEXT['C05'] = (
- "Partial proof. Machine-checked for all states: an unheard broadcast / entity event drops its payload at once and creates no bookkeeping entity or command; otherwise the counter of the fresh data entity equals the number of reaction commands queued behind it; every cleanup performs exactly one decrement, which leaves entity and payload untouched while the counter stays positive and despawns the entity — dropping the payload — when it reaches zero; the cleanup of a system-event command despawns its data entity; a skipped (aborted) reader still runs setup and cleanup and setup never fails. The global counting argument (each scheduled reader reaches its cleanup exactly once, so release happens exactly after the last one and no entity outlives the tree) is not a theorem: it is checked by differential runs comparing every payload drop position and the number of live data entities after every top-level op (stale profile: listeners revoked, despawned or missing between scheduling and running), plus the m_payloads monitor.",
+ "Partial proof. Machine-checked for all states: an unheard broadcast / entity event drops its payload at once and creates no bookkeeping entity or command; otherwise the counter of the fresh data entity equals the number of reaction commands queued behind it; every cleanup performs exactly one decrement, which leaves entity and payload untouched while the counter stays positive and despawns the entity — dropping the payload — when it reaches zero; the cleanup of a system-event command despawns its data entity; a skipped (aborted) reader still runs setup and cleanup and setup never fails; over a whole run every scheduled reader is set up exactly once (run or abort), never lost and never twice. The counter equation itself (each scheduled reader reaches its cleanup exactly once, so release happens exactly after the last one and no entity outlives the tree) is not a theorem: it is checked by differential runs comparing every payload drop position and the number of live data entities after every top-level op (stale profile: listeners revoked, despawned or missing between scheduling and running), plus the m_payloads monitor.",
  "Trusted: Coq kernel; model faithfulness (differential); Bevy semantics as modelled. Partial: the exactly-once / not-before-the-last-reader claim over whole trees is correspondence + monitor.",
  "Coq proof of the step-level protocol (partial) + model/implementation correspondence on drop positions and data-entity counts + monitor", "DESIGN.md §5 C05")
 
@@ -249,40 +249,42 @@ MANIFEST_TEXT['C16'] = (
  "Coq proof of the step-level behaviour (partial) + model/implementation correspondence on local data and runs", "DESIGN.md §5 C16")
 
 PROPS['C07'] = P(
-    ['persistent_handle_is_never_counted_partial', 'persistent_registration_changes_no_state_partial', 'clone_adds_one_reference_partial',
+    ['persistent_handle_is_never_counted_partial', 'persistent_registration_changes_no_state_partial',
+     'persistent_reactors_are_never_collected', 'collected_only_if_signalled_everywhere', 'signals_come_only_from_refcounted_registration', 'clone_adds_one_reference_partial',
      'drop_takes_one_reference_partial', 'last_reference_sends_the_reactor_once_partial', 'dropping_a_handle_despawns_nothing_partial',
      'collection_drains_the_channel_partial', 'despawn_drops_the_system_state_partial'],
     ['lifetime', 'once', 'dispatch', 'mixed'], 'lifetime', determined=False,
     assumes=['PARTIAL: step-level theorems for all states; the global reference count (live references = registrations + in-flight registration commands + pending despawn reactions, at every point of every run), hence "alive exactly as long as ..., collected by the first collection after ...", is not a theorem: it rests on the correspondence (live entities, state drops and table sizes compared after every top-level op, collections at arbitrary points) ',
              'the signal / channel / collector are verified against the real AutoDespawner for every interleaving in C10'])
 MANIFEST_TEXT['C07'] = (
- "Partial proof. Machine-checked for all states: a persistent registration carries no signal and changes no state; an auto-despawn handle is one reference to one signal (clone +1, drop -1), the drop of the last reference sends the reactor entity to the collector exactly once, and dropping a handle despawns nothing; a collection drains the channel completely, including what its own despawns add, and every collected entity is dead afterwards; despawning a reactor drops its boxed callback. The global reference count over whole runs is not a theorem: it is checked by differential runs of the lifetime profile (all three modes, empty bundles, bundles naming dead entities, every order of revoke / fire / despawn / collect) comparing live entities, system-state drops and table sizes after every top-level op. The signal and collector are verified against the real AutoDespawner in C10.",
+ "Partial proof. Machine-checked for whole runs: in every reachable state the collector's channel and the signal table hold only entities for which an auto-despawn signal was prepared, and no command other than a registration in the Cleanup / Revokable modes prepares one — a reactor only ever registered in persistent mode is never collected. Machine-checked for all states: a persistent registration carries no signal and changes no state; an auto-despawn handle is one reference to one signal (clone +1, drop -1), the drop of the last reference sends the reactor entity to the collector exactly once, and dropping a handle despawns nothing; a collection drains the channel completely, including what its own despawns add, and every collected entity is dead afterwards; despawning a reactor drops its boxed callback. The global reference count over whole runs is not a theorem: it is checked by differential runs of the lifetime profile (all three modes, empty bundles, bundles naming dead entities, every order of revoke / fire / despawn / collect) comparing live entities, system-state drops and table sizes after every top-level op. The signal and collector are verified against the real AutoDespawner in C10.",
  "Trusted: Coq kernel; model faithfulness (differential); Bevy semantics as modelled. Partial: the global reference count (no leak / no premature despawn over whole runs) is correspondence only.",
  "Coq proof of the step-level behaviour (partial) + model/implementation correspondence on live entities and state drops", "DESIGN.md §5 C07")
 
 PROPS['C08'] = P(
     ['removal_is_recorded_once_partial', 'nothing_recorded_for_a_component_not_removed_partial', 'sequence_numbers_stay_below_the_counter_partial',
+     'sequence_numbers_invariant_everywhere', 'a_removal_is_read_once_in_every_reachable_state',
      'poll_schedules_every_unread_removal_partial', 'removal_reactions_go_to_exactly_the_registered_reactors_partial', 'a_removal_is_read_once_partial',
      'watched_entity_sent_once_on_despawn_partial', 'unwatched_entity_sends_nothing_partial', 'poll_schedules_every_despawn_reactor_partial',
      'despawn_reactions_go_to_exactly_the_registered_reactors_partial', 'despawn_reactor_fires_at_most_once_per_entity_partial',
      'poll_empties_the_despawn_channel_partial'],
     ['poll', 'lifetime', 'mixed'], 'poll', determined=False,
-    assumes=['PARTIAL: step-level theorems for all states (recording, one poll, consumption); not proved: RSeq in every reachable state (preserved by the only writers of the two fields), that a poll happens by the end of the enclosing tree / frame (structural in Machine.exec), and the link from a scheduled reaction to exactly one run (C02 partial) — these rest on the correspondence (poll profile, frames with plain Bevy systems, direct world access)',
+    assumes=['PARTIAL: step-level theorems for all states (recording, one poll, consumption); not proved: that a poll happens by the end of the enclosing tree / frame (structural in Machine.exec), and the link from a scheduled reaction to exactly one run (C02 partial) — these rest on the correspondence (poll profile, frames with plain Bevy systems, direct world access)',
              'Bevy RemovedComponents double-buffering is modelled by generation stamps and clear_trackers (World.v); causes in plain Bevy systems are the frame batches of TFrame'])
 MANIFEST_TEXT['C08'] = (
- "Partial proof. Machine-checked for all states: each removal of a reactive component is recorded exactly once under a fresh sequence number and nothing is recorded for a component that was not removed; one poll schedules, for every record a checker has not read, exactly the reactions of the reactors registered for that removal (C01 dispatch exactness), and advances every cursor so that a record is read once; a watched entity is sent exactly once when it dies, a poll schedules one reaction per registered despawn handle, consumes the entity's table entry (at most one firing per watched entity) and empties the channel. Not proved: reachability of the sequence-number invariant, the timing of polls relative to trees and frames, and the scheduled-reaction-to-single-run link; checked by differential runs of the poll profile (inserts, removals, re-inserts and despawns between polls; causes in reactors, in frame batches and by direct access; several reactors and despawn triggers per entity).",
+ "Partial proof. Machine-checked for all states: each removal of a reactive component is recorded exactly once under a fresh sequence number and nothing is recorded for a component that was not removed; one poll schedules, for every record a checker has not read, exactly the reactions of the reactors registered for that removal (C01 dispatch exactness), and advances every cursor so that a record is read once — in every reachable state (the sequence-number invariant is closed under every interpreter step); a watched entity is sent exactly once when it dies, a poll schedules one reaction per registered despawn handle, consumes the entity's table entry (at most one firing per watched entity) and empties the channel. Not proved: the timing of polls relative to trees and frames, and the scheduled-reaction-to-single-run link; checked by differential runs of the poll profile (inserts, removals, re-inserts and despawns between polls; causes in reactors, in frame batches and by direct access; several reactors and despawn triggers per entity).",
  "Trusted: Coq kernel; model faithfulness (differential); Bevy RemovedComponents semantics as modelled. Partial: see above.",
  "Coq proof of the step-level behaviour (partial) + model/implementation correspondence", "DESIGN.md §5 C08")
 
 PROPS['C09'] = P(
-    ['log_is_append_only', 'queued_commands_telescope', 'runner_commands_run_inline', 'consequences_run_before_the_next_command',
+    ['log_is_append_only', 'queued_commands_telescope', 'command_list_logs_blocks_in_order', 'runner_commands_run_inline', 'consequences_run_before_the_next_command',
      'postponed_only_while_the_target_executes', 'postponed_commands_queue_in_order', 'replay_front_to_back',
      'replayed_runs_own_postponed_commands_come_first', 'commands_for_other_targets_keep_their_order', 'nothing_left_postponed'],
     ['recursion', 'mixed', 'poll'], 'order', determined=True,
     assumes=['the interpreter is big-step (a command\'s execution includes everything it causes); the theorems add that effects are laid down in that order (append-only log) and describe the postponement exception; "the order of run lines = depth-first order of the command tree" over whole programs is the compared observation (order projection: every mark, run and end line), not a single theorem',
              'the placement of polls (before and after every system command, end of frame) is structural in Machine.exec and compared'])
 MANIFEST_TEXT['C09'] = (
- "Machine-checked for every program: the log is append-only under every interpreter step, so a queued command together with everything it transitively causes logs a block that precedes every effect of the next queued command (queued_commands_telescope); commands that enter the runner run in-line when applied and the commands produced by a trigger or registration are executed before the next queued command; a command is postponed only while its target is executing (runner invariant with ghost calling context), postponed commands queue in order, are replayed front to back right after the target's run and before control returns to what was queued after it, what the replayed runs postpone themselves goes first and commands for other targets keep their order; nothing is left postponed when the outermost command returns. Tied to /repo by differential runs of the recursion profile comparing every mark, run and end line in order, plus the m_runs monitor.",
+ "Machine-checked for every program: the log is append-only under every interpreter step, so a queued command together with everything it transitively causes logs a block that precedes every effect of the next queued command, and the log of a whole command list is the concatenation of its commands' blocks in list order (queued_commands_telescope, command_list_logs_blocks_in_order); commands that enter the runner run in-line when applied and the commands produced by a trigger or registration are executed before the next queued command; a command is postponed only while its target is executing (runner invariant with ghost calling context), postponed commands queue in order, are replayed front to back right after the target's run and before control returns to what was queued after it, what the replayed runs postpone themselves goes first and commands for other targets keep their order; nothing is left postponed when the outermost command returns. Tied to /repo by differential runs of the recursion profile comparing every mark, run and end line in order, plus the m_runs monitor.",
  "Trusted: Coq kernel; model faithfulness (differential); Bevy command-queue semantics as modelled. The single whole-program statement 'run order = depth-first order of the command tree' is the compared observation rather than a theorem; poll placement is structural.",
  "Coq proof (append-only log as a closed invariant, structural theorems of the big-step interpreter, runner invariant) + model/implementation correspondence on the order of all marks and runs + monitor", "DESIGN.md §5 C09")
 PROPS['C12'] = P(
